@@ -23,6 +23,10 @@ COMMON_TB = [
 
 PROPS = {
     "C05": {
+        "design_ref": "6.3/C05",
+        "technique": "Lean 4 proof over an executable model of Subject/Subscription/Observer (delivery log = filter of subscribed, valid, unmuted observers in order; ids never reused; handle laws; stale handles rejected) for every history and argument value + three-way differential correspondence over 5 argument signatures and 6 observer-construction routes",
+        "level_text": "Machine-checked proof that notify's call log is exactly the subscribed, valid, unmuted observers in subscription order with the passed value (ids distinct, so exactly once each), that an id that was unsubscribed or invalidated never appears in the log of any later history, that handles report validity and mute state as the subject holds them, and that unsubscribing a stale or foreign handle throws and leaves the state unchanged — for every finite history and any argument type. Argument passing (copy/move/forward through the templates) is outside the model and covered by the correspondence run over none / by value (int, long std::string) / const reference / two arguments on the real code under ASan.",
+        "level_note": "Trusted: Lean kernel; transcription of Subject.h/Subscription.h/Observer.h (repaired code, fix 54bef70); std::forward_list/set/function/unique_ptr as modelled; unbounded Nat (no 32-bit id wrap); null/dangling handle dereferences are preconditions (never generated).",
         "lean_modules": ["Tulz.Props.C05"],
         "theorems": ["Tulz.C05_notify_log", "Tulz.C05_never_again", "Tulz.C05_dead_cases", "Tulz.C05_handle_reports",
                      "Tulz.C05_reject_stale", "Tulz.C05_unsubscribe_ok"],
@@ -33,6 +37,10 @@ PROPS = {
                         "C05_notify_log is stated for callbacks that only log (script = []); arbitrary callbacks are C10"],
     },
     "C10": {
+        "design_ref": "6.3/C10",
+        "technique": "Lean 4 proof of memory safety (trace monitor invariant: no touch after free, no double free, no free of an observer whose callback is on the stack) and round semantics for callbacks running arbitrary action scripts with bounded nesting + exhaustive small-script and random differential correspondence with lifetime-tracked observers under ASan",
+        "level_text": "Machine-checked proof that for every set of callback scripts (subscribe, unsubscribe self/earlier/later, mute, invalidate, nested notify up to any fuel) one outermost notify and every history of operations keeps the event trace safe (no dereference of a destroyed observer, no double destruction, no destruction of an observer while its callback is executing), that the round is one turn per snapshot entry (skipped if no longer active, not called if muted/invalid at its turn, observers subscribed during the round are not in the snapshot and are in the next), and that well-formedness is preserved at top level and when re-entered. Tied to Subject.h by interpreting the same scripts in real callbacks: exhaustive over small observer/script configurations plus random ones, with guard objects reporting FREE_WHILE_RUNNING / CALL_AFTER_FREE and ASan.",
+        "level_note": "Trusted: as C05; callbacks act on their own subject; nesting bounded by a fuel enforced identically in the harness; scripts of observers subscribed inside callbacks come from a script library indexed by Nat.",
         "lean_modules": ["Tulz.Props.C10"],
         "theorems": ["Tulz.C10_memory_safe", "Tulz.C10_memory_safe_history", "Tulz.C10_round_semantics", "Tulz.C10_notify_is_round",
                      "Tulz.C10_new_not_in_round", "Tulz.C10_wf_preserved", "Tulz.C10_wf_nested", "Tulz.C10_wf_history"],
@@ -42,6 +50,10 @@ PROPS = {
                         "nested notify is bounded by a fuel that the harness enforces identically; callbacks act on their own subject"],
     },
     "C16": {
+        "design_ref": "6.3/C16",
+        "technique": "Lean 4 proof parametric in the value type, its equality and operator functions (assign/apply/compound/inc-dec laws, recorder corollary over every history) + three-way differential correspondence on Observable<long>, Observable<double, tolerance> over dyadic rationals and Observable<std::string>",
+        "level_text": "Machine-checked proof, for every value type, equality and operator, that an eq-equal assignment changes nothing and notifies nobody, a changing assignment stores the value and notifies each subscriber once with it, apply/compound operators notify iff the value changed (w.r.t. eq) with the post-operation value, ++/-- always notify with the new value (prefix returns new, postfix old), and that with a lawful == every subscriber that records notifications holds value() after any history of operations and subscribe/unsubscribe. Tied to Observable.h on three instantiations (long without overflow, double with a tolerance comparator on exactly representable values compared as scaled integers, std::string).",
+        "level_note": "Trusted: as C05; the value type's arithmetic is a parameter (signed overflow and division by zero are UB in C++ and excluded from the tie).",
         "lean_modules": ["Tulz.Props.C16"],
         "theorems": ["Tulz.C16_assign", "Tulz.C16_apply", "Tulz.C16_opAssign", "Tulz.C16_incdec", "Tulz.C16_recorder", "Tulz.C16_reachable"],
         "trusted_base": COMMON_TB + ["arithmetic of the value type is a parameter of the theorems; the correspondence uses long (no overflow, no division by zero), "
